@@ -611,8 +611,12 @@ impl super::MainState {
 
             if do_it {
                 // do it if all is ok.
+                // count operator only once
+                let was_oper = user.modes.is_local_oper();
                 user.modes.oper = true;
-                state.operators_count += 1;
+                if !was_oper {
+                    state.operators_count += 1;
+                }
                 info!("New IRC operator {}", conn_state.user_state.source);
                 self.feed_msg(&mut conn_state.stream, RplYoureOper381 { client })
                     .await?;
